@@ -7,6 +7,8 @@
 (*   "mag"    magnitude: extreme-scale names under large integer exponents     *)
 (*   "expform" every exponent/coefficient spelling form in every position      *)
 (*   "hist"   parsing history: token sequence x joiner x warm-up kind           *)
+(*   "xreg"   parsing history across registries: token sequence x joiner x     *)
+(*            (registry kind read under, other kind that parsed it before)     *)
 (*   "py"     the Python corner: head x trailers x wrapper x warm/cold parser  *)
 (*   "persist" registry kind x unit form x carrier x persistence route         *)
 (*   "tok"    every token sequence of length <= MaxTok over the tokens TokPick *)
@@ -47,7 +49,11 @@ NextTok == c = <<>> /\ \E n \in 0..(MaxTok - 1) : \E h \in TokPick : \E rest \in
              c' = [k |-> "tok", t |-> <<h>> \o rest, j |-> j]
 \* parsing history: sequences of <= MaxTok tokens of HToks (indices TokPick) x tested joiner x warm-up kind
 NextHist == c = <<>> /\ \E n \in 0..(MaxTok - 1) : \E h \in TokPick : \E rest \in [1..n -> TokPick] : \E j \in DOMAIN HJoiners : \E w \in DOMAIN HWarm :
-              c' = [k |-> "hist", t |-> <<h>> \o rest, j |-> j, w |-> HWarm[w]]
+              c' = [k |-> "hist", t |-> <<h>> \o rest, j |-> j, w |-> HWarm[w], r |-> "default", q |-> "same"]
+\* ... x (registry kind read under, other registry kind that parsed the string before)
+NextXreg == c = <<>> /\ \E n \in 0..(MaxTok - 1) : \E h \in TokPick : \E rest \in [1..n -> TokPick] : \E j \in 1..NJoin :
+              \E r \in DOMAIN HRegs : \E q \in DOMAIN HRegs \ {r} :
+              c' = [k |-> "hist", t |-> <<h>> \o rest, j |-> j, w |-> "foreign", r |-> HRegs[r], q |-> HRegs[q]]
 \* Python corner: <= MaxTr trailers under the first two wrappers (bare, product), <= MaxTrW under the others
 NextPy == c = <<>> /\ \E h \in DOMAIN PyHeads : \E w \in DOMAIN PyWraps : \E n \in 0..(IF w <= 2 THEN MaxTr ELSE MaxTrW) :
             \E tr \in [1..n -> DOMAIN PyTrailers] : \E warm \in BOOLEAN :
@@ -57,14 +63,14 @@ NextPersist == c = <<>> /\ \E rk \in DOMAIN RegKinds : \E f \in DOMAIN Forms : \
                  /\ c' = [k |-> "persist", rk |-> RegKinds[rk], f |-> Forms[f], ca |-> Carriers[ca], rt |-> Routes[rt]]
 Next == CASE Mode = "valid" -> NextValid [] Mode = "sweep" -> NextSweep [] Mode = "build" -> NextBuild
           [] Mode = "mag" -> NextSet(MagSet) [] Mode = "expform" -> NextSet(FormSet)
-          [] Mode = "hist" -> NextHist
+          [] Mode = "hist" -> NextHist [] Mode = "xreg" -> NextXreg
           [] Mode = "py" -> NextPy [] Mode = "persist" -> NextPersist [] OTHER -> NextTok
 \* deterministic thinning of the simulator's export (it evaluates the invariant on every successor)
 RECURSIVE WSum(_, _)
 WSum(a, n) == IF n = 0 THEN 0 ELSE (n * a[n] + WSum(a, n - 1)) % 1000003
 Export ==
   IF c = <<>> THEN TRUE
-  ELSE IF c.k = "hist" THEN PrintT(ToJson([tag |-> "HIST", t |-> c.t, j |-> c.j, w |-> c.w, x |-> [n \in DOMAIN c.t |-> HToks[c.t[n]]]]))
+  ELSE IF c.k = "hist" THEN PrintT(ToJson([tag |-> "HIST", t |-> c.t, j |-> c.j, w |-> c.w, r |-> c.r, q |-> c.q, x |-> [n \in DOMAIN c.t |-> HToks[c.t[n]]]]))
   ELSE IF c.k = "py" THEN PrintT(ToJson([tag |-> "PY", h |-> c.h, tr |-> c.tr, w |-> c.w, warm |-> c.warm, s |-> PyText(c.h, c.tr, c.w)]))
   ELSE IF c.k = "persist" THEN PrintT(ToJson([tag |-> "PERSIST", rk |-> c.rk, f |-> c.f, ca |-> c.ca, rt |-> c.rt]))
   ELSE IF c.k = "tok" THEN PrintT(ToJson([tag |-> "TOK", t |-> c.t, j |-> c.j, x |-> [n \in DOMAIN c.t |-> Toks[c.t[n]].s], pred |-> TokPredict(c.t), feat |-> TokFeatures(c.t)]))
